@@ -1,6 +1,6 @@
 """Property -> rules wiring and MANIFEST metadata."""
 from . import facts, sem
-from .rules import f5_trace, f6_kinds, f7_roots, f4_gc, f4_chan, f4_sched, f4_vm, f1_isa, f9_casts, f10_parity, f2_emit, f2_visit, f4_exc, f4_iter, f4_repl, f4_cache, f4_obj, f11_peephole, f8_hazards, f1c_ops
+from .rules import f5_trace, f6_kinds, f7_roots, f4_gc, f4_chan, f4_sched, f4_vm, f1_isa, f9_casts, f10_parity, f2_emit, f2_visit, f4_exc, f4_iter, f4_repl, f9_empty, f4_cache, f4_obj, f11_peephole, f8_hazards, f1c_ops
 
 
 def D(rec):
@@ -176,6 +176,8 @@ def c15(rec, tier):
     T = f1_isa.run_tables(rec, F)
     f1_isa.run_jumps(rec, F, T)
     f2_emit.run_parser_function_context(rec, S)
+    f9_empty.run(rec, F)
+    f1c_ops.run_number_tokens(rec, F)
 
 
 def SY(rec):
